@@ -214,6 +214,11 @@ class AB:
             n = rng.choice([0, 7, 123456789, 2 ** 63])
             self.b.mark += 1
             txt = ("213 %d" % n).encode()
+            if rng.random() < 0.5:
+                # ... or one it cannot: blanks, padding, signs, overflow, nothing at all - the command goes on, the client too
+                txt = rng.choice([b"213  ", b"213    ", b"213 \t", b"213  ", b"213 \t ", b"213   ", b"213", b"213 ", b"213  42", b"213 42 ", b"213 -1", b"213 +5", b"213 4 2",
+                                  b"213 18446744073709551616", b"213 99999999999999999999999", b"213 0x10", b"213 1e3", b"213 12abc"])
+                self.dist.add("size-reply:malformed")
             self.b.cur[-1]["now"][0] = ("R", 213, txt)
             self.b.exp[ci]["replies"] = [("R", 213, txt)]
         self.exp["marks"] += [(self.cur_si(), r[2]) for r in self.b.exp[ci]["replies"]]
@@ -354,10 +359,11 @@ def session_body(a, rng, dist, nops, faults=False):
             break
         r = rng.random()
         if r < 0.35:
-            verb = rng.choice(["cd", "cdup", "pwd", "mkdir", "rmdir", "del", "stat", "syst", "noop", "rhelp", "size"])
-            a.net_simple(verb, arg_form=rng.choice(["given", "given", "prompt"]),
-                         code=rng.choice([None, None, 200, 250, 257, 500, 550, 421 if faults else 502]),
-                         multi=rng.random() < 0.2)
+            verb = rng.choice(["cd", "cdup", "pwd", "mkdir", "rmdir", "del", "stat", "syst", "noop", "rhelp", "size", "size"])
+            code = rng.choice([None, None, 200, 250, 257, 500, 550, 421 if faults else 502])
+            if verb == "size" and rng.random() < 0.7:
+                code = None                  # (213 with a size the client can or cannot parse, or 550)
+            a.net_simple(verb, arg_form=rng.choice(["given", "given", "prompt"]), code=code, multi=rng.random() < 0.2)
         elif r < 0.45:
             v = rng.choice(sorted(USAGE))
             a.usage(v, *USAGE[v])
